@@ -220,6 +220,48 @@ fn check_binding(acc: &mut Acc, extra: &mut serde_json::Map<String, Value>) {
             }
         }
     });
+    // very wide matrices (columns just past 4096, 32768, 65536) with a handful of ones stored out of order
+    for n in [4097usize, 32769, 65537] {
+        let rows: Vec<Vec<usize>> = vec![vec![1, n - 1, 900, 5], vec![2000, 5, n - 1, 900], vec![n - 1, 5, 2000, 900], vec![n - 1, 5]];
+        let build = || {
+            let mut h = ldpc_toolbox::sparse::SparseMatrix::new(rows.len(), n);
+            for (i, r) in rows.iter().enumerate() {
+                for &j in r {
+                    h.insert(i, j);
+                }
+            }
+            h
+        };
+        let mut llrs = vec![1.0f64; n];
+        llrs[1] = 0.5;
+        llrs[5] = 2.0;
+        llrs[900] = 1.0;
+        llrs[2000] = -3.0;
+        llrs[n - 1] = -2.0;
+        let mut llrs2 = vec![4.0f64; n];
+        llrs2[5] = -0.3;
+        llrs2[n - 1] = -1.2;
+        llrs2[900] = 0.7;
+        let a4 = par_items(&names, |name, a| {
+            let (layered, arith) = dec::parse_name(name);
+            let mut f = dec::factory_build(name, build()).unwrap();
+            let mut d = dec::direct_build(layered, arith, build());
+            for (vi, v) in [&llrs, &llrs2].iter().enumerate() {
+                for l in [1usize, 2, 3] {
+                    a.evals += 1;
+                    a.nontrivial += 1;
+                    let rf = guard(|| f.decode(v, l));
+                    let rd = guard(|| d.decode(v, l));
+                    if rf != rd {
+                        a.violate(format!("binding:wide{}:{}", n, name), format!("on the 4x{} matrix (rows stored out of column order), vector #{} limit {}: factory-built and directly built {} disagree", n, vi, l, name), json!({"kind": "binding-wide", "name": name}));
+                        return;
+                    }
+                }
+            }
+        });
+        let taken = std::mem::take(acc);
+        *acc = taken.merge(a4);
+    }
     // a long code (more than 4096 ones, stored in a scrambled order): factory-built vs directly built
     {
         let (r, n) = (700usize, 1400usize);
@@ -376,7 +418,7 @@ pub fn run(run: &Run) -> i32 {
         run,
         acc,
         Coverage {
-            rule: "all 36 names (parse, print, command-line value list) exhaustively; every string at edit distance 1 over [A-Za-z0-9] from a name, case-folded and whitespace-padded variants, the 12 plausible non-existent HL names and a few literals (must be rejected unless the edit yields another name); behavioural binding: for each name the factory-built decoder vs the generic decoder built directly from (HL prefix => horizontal_layered, remainder => arithmetic type by the harness's own 24-arm match) on a family of 3 matrices x all non-codeword sign patterns at 6 magnitudes and boundary-value substitutions x limits {1,2,5}, plus a 700x1400 code with 4200 ones stored in a scrambled order (3 vectors x limits {1,5}). The family's separation of all 48 (schedule, arithmetic) combinations is measured (extra.separation_*). Non-trivial = call that ran iterations (binding) or string outside the name set (rejection).".into(),
+            rule: "all 36 names (parse, print, command-line value list) exhaustively; every string at edit distance 1 over [A-Za-z0-9] from a name, case-folded and whitespace-padded variants, the 12 plausible non-existent HL names and a few literals (must be rejected unless the edit yields another name); behavioural binding: for each name the factory-built decoder vs the generic decoder built directly from (HL prefix => horizontal_layered, remainder => arithmetic type by the harness's own 24-arm match) on a family of 3 matrices x all non-codeword sign patterns at 6 magnitudes and boundary-value substitutions x limits {1,2,5}, plus a 700x1400 code with 4200 ones stored in a scrambled order (3 vectors x limits {1,5}) and 4-row matrices with 4097, 32769 and 65537 columns whose rows are stored out of column order. The family's separation of all 48 (schedule, arithmetic) combinations is measured (extra.separation_*). Non-trivial = call that ran iterations (binding) or string outside the name set (rejection).".into(),
             exhaustive: true,
             extra,
             graph: None,
